@@ -1,6 +1,7 @@
 """C12 — dynamic update semantics: authorise -> prerequisites -> prescan -> apply ordering; reject-code tables = RFC 2136
 pseudocode; apex SOA/NS protection; CNAME exclusivity before insert; serial bump iff updated; per-record effects unconditional."""
 import re
+import argnames
 import helpers
 from api import shorten
 
@@ -202,3 +203,8 @@ def run(cx):
 
     # ---------------------------------------------------------------- H helper semantics the guards above rely on (rules/helpers.py)
     helpers.check(cx, 'C12.H', ['LowerName::zone_of', 'SerialNumber::partial_cmp'])
+
+    # ---------------------------------------------------------------- N1 argument names agree with the parameters they are bound to (engine/argnames.py)
+    argnames.check(cx, 'C12.N1', r'hickory_server::store::sqlite|hickory_server::store::in_memory', floor=120)
+    argnames.check_fields(cx, 'C12.N1', r'hickory_server::store::sqlite|hickory_server::store::in_memory', floor=6)
+
